@@ -572,7 +572,7 @@ func c12Narrowing(c *Ctx, val *ssa.Function) {
 		excl := false
 		for _, ec := range condsDominating(of.Block()) {
 			cmp, ok := ec.Cond.(*ssa.BinOp)
-			if !ok || cmp.Op != token.EQL || ec.Val {
+			if !ok || !((cmp.Op == token.EQL && !ec.Val) || (cmp.Op == token.NEQ && ec.Val)) {
 				continue
 			}
 			if kc, ok := cmp.X.(*ssa.Call); ok && calleeFullName(kc) == "(reflect.Value).Kind" && kc.Call.Args[0] == ssa.Value(wo.Params[1]) {
